@@ -91,7 +91,13 @@ def generate_subgraphs(graph: IterationNode) -> list[IterationNode]:
             all_subgraphs.update(new_graphs)
             old_subgraphs = new_graphs
 
-    return list(all_subgraphs.values())
+    # Subgraphs are emitted as a sequence of loops and as an if/else-if chain, where the first
+    # entry whose sparse tensors are all present wins. The entry that must win is the one that
+    # keeps every present tensor, which is the largest such entry, so larger sets of remaining
+    # sparse tensors must come before their subsets. Breadth-first discovery order does not
+    # guarantee that (zeroing one tensor can remove several), so order by size explicitly. The
+    # sort is stable, keeping discovery order among subgraphs of the same size.
+    return sorted(all_subgraphs.values(), key=lambda g: -len(g.compressed_dimensions()))
 
 
 @to_ir_iteration_graph.register(IterationNode)
